@@ -134,3 +134,101 @@ func whyOf(why []string, ps []int) []string {
 	}
 	return out
 }
+
+// CloseRace: every partition consumer of a round is closed by three goroutines at the same moment (an application's
+// signal handler calling AsyncClose while the reader calls Close; the consumer group does it itself: the session
+// watcher and the claim goroutine both call AsyncClose).  Closing twice is harmless under every schedule.
+func CloseRace(run *hlib.Run, rounds, parts int) {
+	for round := 0; round < rounds; round++ {
+		if !run.Mine(round) {
+			continue
+		}
+		sim := sarama.VerifNewSim(1, map[string]int32{"t": int32(parts)})
+		cfg := sarama.NewConfig()
+		cfg.Version = sarama.V2_1_0_0
+		cfg.Consumer.Return.Errors = true
+		cfg.Consumer.MaxWaitTime = 5 * time.Millisecond
+		cfg.Consumer.Retry.Backoff = time.Millisecond
+		cfg.Metadata.Retry.Backoff = time.Millisecond
+		c, err := sarama.NewConsumer(sim.Addrs(), cfg)
+		if err != nil {
+			sim.Close()
+			continue
+		}
+		var pcs []sarama.PartitionConsumer
+		for p := 0; p < parts; p++ {
+			for try := 0; try < 8; try++ {
+				pc, err := c.ConsumePartition("t", int32(p), sarama.OffsetOldest)
+				if err == nil {
+					pcs = append(pcs, pc)
+					break
+				}
+				time.Sleep(2 * time.Millisecond)
+			}
+		}
+		var wg sync.WaitGroup
+		var mu sync.Mutex
+		panics := ""
+		start := make(chan struct{})
+		for _, pc := range pcs {
+			for k := 0; k < 3; k++ {
+				pc, k := pc, k
+				wg.Add(1)
+				go func() {
+					defer wg.Done()
+					defer func() {
+						if r := recover(); r != nil {
+							mu.Lock()
+							panics = fmt.Sprint(r)
+							mu.Unlock()
+						}
+					}()
+					<-start
+					if k == 2 {
+						done := make(chan struct{})
+						go func() {
+							defer func() {
+								if r := recover(); r != nil {
+									mu.Lock()
+									panics = fmt.Sprint(r)
+									mu.Unlock()
+								}
+								close(done)
+							}()
+							pc.Close()
+						}()
+						select {
+						case <-done:
+						case <-time.After(8 * time.Second):
+							mu.Lock()
+							if panics == "" {
+								panics = "hang"
+							}
+							mu.Unlock()
+						}
+					} else {
+						pc.AsyncClose()
+					}
+				}()
+			}
+		}
+		close(start)
+		wg.Wait()
+		run.Count("close-race-rounds")
+		mu.Lock()
+		p := panics
+		mu.Unlock()
+		if p == "hang" {
+			run.IOFail("C12:partition-consumer-concurrent-close-hang", fmt.Sprintf("closerace %d %d", round, parts), "Close did not return within 8 s when three goroutines closed every partition consumer at the same moment")
+		} else if p != "" {
+			run.IOFail("C12:partition-consumer-concurrent-close-panic", fmt.Sprintf("closerace %d %d", round, parts), "closing a partition consumer from three goroutines at once panicked: "+p)
+		}
+		cd := make(chan struct{})
+		go func() { c.Close(); close(cd) }()
+		select {
+		case <-cd:
+		case <-time.After(8 * time.Second):
+		}
+		sim.Close()
+	}
+}
